@@ -55,6 +55,9 @@ std::tuple<
     iterator_range<const T*>
     >
 map(const boost::numeric::ublas::compressed_matrix<T, boost::numeric::ublas::row_major> &A) {
+    // uBlas fills index1_data() lazily: the entries for the empty rows after
+    // the last stored element are only written by complete_index1_data().
+    const_cast<boost::numeric::ublas::compressed_matrix<T, boost::numeric::ublas::row_major>&>(A).complete_index1_data();
     return std::make_tuple(
             A.size1(),
             make_iterator_range(
